@@ -21,7 +21,8 @@ CHECKS = {
              "chains of 200 siblings, empty units, childless DIEs whose abbreviation claims children, sibling attributes, indirect/implicit_const/data16/"
              "line_strp forms), the repository's sample binaries (with dwz supplementary files) and objects freshly compiled by gcc and clang at several DWARF "
              "versions are enumerated through `raw unit`, `raw entry` and `raw unit root child*`; every unit and DIE must appear exactly once in section "
-             "pre-order with its true offset, tag, parent, unit, child flag, position number and (attribute, form) list in stored order.",
+             "pre-order with its true offset, tag, parent, unit, child flag, position number and (attribute, form) list in stored order."
+             " Each unit's own offset, the unit of its root and first child, parents asked for out of storage order and the children/attributes of `D parent` are compared too; forests include DWARF 5 type and skeleton units and abbreviations declared out of code order.",
         note="Generated files are known by construction and cross-checked against llvm-dwarfdump before use (a mismatch there is a harness failure); samples and compiler output trust llvm-dwarfdump.",
         design="DESIGN.md 5-C02"),
     "C03": dict(
@@ -30,7 +31,8 @@ CHECKS = {
         text="Generated programs with nested binders of all five kinds, shadowing (incl. names shadowing builtins), multi-yield let bodies and blocks "
              "capturing up-values are run on the real engine and compared with a lexical-scoping reference evaluator; every program is also re-run "
              "with all bound identifiers consistently renamed and with {B} apply replaced by the scoped body (results must be identical), and "
-             "negative variants (unbound read, read moved out of each kind of scope, rebinding) must be rejected with a message naming the identifier.",
+             "negative variants (unbound read, read moved out of each kind of scope, rebinding) must be rejected with a message naming the identifier."
+             " Blocks nested up to four deep rebind outer names (by let or as scope parameters) above further nested blocks.",
         note="Trusts the scoping rules of doc/syntax.rst as encoded in vf/zmodel.py; names bound inside %( %) splices are not generated (plain context, undocumented scope).",
         design="DESIGN.md 5-C03"),
     "C04": dict(
@@ -39,7 +41,8 @@ CHECKS = {
         text="For generated producers P of tagged stacks and sub-expressions E (any stack effect, failing, multi-yield) and for `entry`-style producers over "
              "sample DWARF files with DWARF sub-expressions: results(P) must equal results(P ?(E)) plus results(P !(E)) as multisets of whole serialised stacks, "
              "infix forms may only yield stacks of P, `let` and `[E]` must reproduce every P stack unchanged the right number of times; every ?w/!w pair of the "
-             "vocabulary (about 970) is applied to 24 operand kinds: unchanged-or-nothing, never both, neither iff a diagnostic.",
+             "vocabulary (about 970) is applied to 24 operand kinds: unchanged-or-nothing, never both, neither iff a diagnostic."
+             " The assertion forms are also run with binding blocks; positioned values and reads of bound names lie on every stack; operand tuples include overlapping address sets, invalid regular expressions and location expressions repeating an operation.",
         note="No model; both sides are runs of the engine.  Comparisons use the driver's canonical serialisation (values, domains, positions, DIE identity incl. import route).",
         design="DESIGN.md 5-C04"),
     "C05": dict(
@@ -48,7 +51,8 @@ CHECKS = {
         text="For every DIE of every input (sample binaries, compiled objects, generated forests with partial units imported twice and nested up to four "
              "levels with deep content), in raw and cooked mode, the engine reports the DIE, its parent, children, root, end of the parent chain, ?root and unit; "
              "Python checks child/parent inverse, root = chain end = ?root, unit entry = entry, unit DIEs = root child*, unit of a DIE lists it, same-route "
-             "DIEs identical; the same laws are run in the language and must report no counterexample.",
+             "DIEs identical; the same laws are run in the language and must report no counterexample."
+             " The laws are also run on values that change view on the way (raw made cooked and back), and on forests with header-only units.",
         note="No model; identities come from the driver's serialisation of value_die (offset, ELF image size, raw/cooked, import chain).",
         design="DESIGN.md 5-C05"),
     "C06": dict(
@@ -57,7 +61,8 @@ CHECKS = {
         text="The forest model computes the expected cooked units, the cooked pre-order with import routes, every DIE's cooked child list and its attribute "
              "list (own attributes in stored order, then the set integrated through specification/abstract_origin chains of length 0-4 with shadowing; never "
              "sibling/declaration; no name twice) and the values seen through integration; @AT_x vs attribute ?AT_x cooked value, ?AT_x vs attribute ?AT_x "
-             "and name vs @AT_name are compared for every DIE of generated, sample and compiled files and ~35 attribute names.",
+             "and name vs @AT_name are compared for every DIE of generated, sample and compiled files and ~35 attribute names."
+             " Chains carry typed DW_AT_const_value, vendor attributes whose codes share the low byte with standard ones, and the ?FORM_x / form == DW_FORM_x law is checked in both views.",
         note="Where the reference graph branches and several reachable DIEs define a lacking attribute, the statement does not say which supplies it: presence is "
              "checked, form/value are not.  Known finding S3 is matched by exactly that DIE shape.",
         design="DESIGN.md 5-C06"),
@@ -69,7 +74,8 @@ CHECKS = {
              "typedef/const/volatile/restrict chains, and enumerations with and without underlying type; plus strings (string/strp/line_strp), flags, addresses, every "
              "reference form, enumerated attributes in and out of the named range, signed/unsigned/hex attribute classes, user attributes.  Each decoded value must have "
              "the expected kind, number, sign, domain and rendering (names from dwarf.h); uninterpretable cases (float/struct typed data, block for a pointer, ref_sig8, "
-             "discr_value, unknown attribute, data16) must give an error, a diagnostic or a raw block, never a silent number.",
+             "discr_value, unknown attribute, data16) must give an error, a diagnostic or a raw block, never a silent number."
+             " Also: variables typed by enumerations, values integrated over one to three reference hops, DW_AT_ranges lists with base-address entries, and all ten location-class attributes in block and exprloc form.",
         note="The decoding table encodes the statement plus the tool's documented fixed signedness for attributes like upper_bound; compiler objects are covered structurally by C02/C06.",
         design="DESIGN.md 5-C07"),
     "C08": dict(
@@ -88,7 +94,8 @@ CHECKS = {
              "domain incl. positions and addresses, booleans, slot types, DW_* families and ELF symbol domains of several machines with equal numbers, strings with "
              "NUL/high bytes/prefixes, nested sequences, address sets, a closure, and DWARF values: the same DIE via three import routes, raw and route-less, units, "
              "attributes, abbreviations, symbols, location elements, the same file opened twice); Python then checks trichotomy, reflexivity, symmetry, transitivity "
-             "over all triples, converse, alias agreement cell by cell, cross-type consistency, by-value order of arithmetic domains, bytewise strings, length-first sequences.",
+             "over all triples, converse, alias agreement cell by cell, cross-type consistency, by-value order of arithmetic domains, bytewise strings, length-first sequences."
+             " The pool holds constants 0-3 of every family the vocabulary offers (families taken from the words), closures with captured environments, strings differing only after a NUL, address sets 2^63 apart, location operations, and unit roots reached through different imports; cell (i,i) compares two copies of every value.",
         note="Laws are stated on relations, never on a particular order of unrelated values (which is by object address).  The whole matrix is computed in one process. "
              "Known finding S2 (route-less DIE 'template' equality) is matched by its exact triple pattern.",
         design="DESIGN.md 5-C09"),
@@ -99,7 +106,8 @@ CHECKS = {
              "containing ALT/OR/let/if/nested closures; one- and two-slot states; junk below) are run from 1-4 start stacks: the result multiset must equal "
              "the model's reachable set (each ==-class once), E+ must equal distinct(E E*), E? must equal (E,), E**, E+*, E*+ must collapse, results for "
              "several inputs must be the union of the single-input results, no stack may appear twice for one input, and every run must finish within a "
-             "fuel budget (non-termination is decided in logical steps).  DWARF: child*, parent*, @AT_type* ... from every DIE of the sample files.",
+             "fuel budget (non-termination is decided in logical steps).  DWARF: child*, parent*, @AT_type* ... from every DIE of the sample files."
+             " Bodies include mixed value types in one slot, empty alternatives (X?, (X,)), closure values lying below the working slots; two closures in a row and X*? / X+? are compared with the model.",
         note="Unbounded termination is restated as bounded progress on finite graphs; infinite reachable sets (1+) are outside the statement and never generated.",
         design="DESIGN.md 5-C10"),
     "C11": dict(
@@ -108,7 +116,8 @@ CHECKS = {
         text="Every core word is applied to operand tuples from a 31-value pool (boundary integers per domain, booleans, type constants, strings with NUL/high bytes, "
              "nested/heterogeneous sequences, a block) at stack depths 0-6 reached through direct pushes, push/drop detours, let bindings, id-block scopes and the API "
              "input stack with arbitrary positions; results (values, domains, positions), diagnostics and raised errors are compared with the list/byte-string/integer "
-             "model, and across histories.  H3 recomputes the cached type profile after every push/pop/drop/copy of every stack in the run.",
+             "model, and across histories.  H3 recomputes the cached type profile after every push/pop/drop/copy of every stack in the run."
+             " Histories also include other live copies of the operands (alias), operand tuples of other types before and after (stream) and operands with non-zero positions.",
         note="?match is judged on a portable ERE subset; cross-type/cross-domain order cells are skipped.  Arity-2 pairs are sampled in the quick tier, exhaustive in thorough.",
         design="DESIGN.md 5-C11"),
     "C12": dict(
@@ -118,7 +127,8 @@ CHECKS = {
              "and the pulls/destroys of the live result sets are interleaved (all interleavings when few, sampled otherwise; also the query destroyed while a "
              "result is live); the serialised outcome of every pull must equal the corresponding element of the sequence a freshly started process yields for "
              "the same text and input, and the input stack must be unchanged.  All ordered pairs of texts with parser-side state are compiled in one process; "
-             "a Dwarf value is reused across interleaved executions of producers with internal caches.",
+             "a Dwarf value is reused across interleaved executions of producers with internal caches."
+             " DWARF queries are abandoned after k pulls and followed by full runs on the same handle; values kept across executions must stay unchanged; an execution that raises and refused compiles at the nesting limits precede other compiles and runs.",
         note="Assumes determinism of a fresh process as the reference.  Both sides are the real engine.",
         design="DESIGN.md 5-C12"),
     "C13": dict(
@@ -127,7 +137,8 @@ CHECKS = {
         text="Every generated program's result set is abandoned after every k = 0..n+1 pulls (query destroyed before or after the result) and a run-time failure "
              "is injected at every one of its first 40 state accesses (the step budget throws out of the engine), every token of generated queries is deleted in turn "
              "and the rejected queries leak-checked separately from accepted ones, DWARF producers are abandoned on the sample files; sanitizer reports and hook "
-             "aborts are fatal, LeakSanitizer is polled after batches whose API objects were all destroyed.  All other properties' checks run on the same build.",
+             "aborts are fatal, LeakSanitizer is polled after batches whose API objects were all destroyed.  All other properties' checks run on the same build."
+             " Also: byte-level mutants, every vocabulary word and back-tick form on stacks of depth 0-5, every core word on operand tuples in leak-checked processes.",
         note="ASan misses intra-object overflows and reuse after quarantine; memcheck and libFuzzer are thorough-only.  Known finding F8 (rejected queries leak under yyparse/yylex) is matched by allocation site.",
         design="DESIGN.md 5-C13"),
     "C14": dict(
@@ -137,7 +148,8 @@ CHECKS = {
              "of 50 tokens, boundary integer literals with every prefix, strings/splices cut at every position, NUL bytes and 30000+ byte-mutated grammar strings are "
              "parsed through zw_query_parse_len from an exact-size heap block (ASan sees any read past the length), through zw_query_parse, and with explicit "
              "lengths shorter than the buffer; accepted queries are executed under a step budget; run-time failures are placed at a chosen pull index; a sample "
-             "goes through the CLI (-e, -f incl. NUL bytes, positional) where rejected or raising queries must end with a message and status 2.",
+             "goes through the CLI (-e, -f incl. NUL bytes, positional) where rejected or raising queries must end with a message and status 2."
+             " Also: texts around the generated parser's stack limit and nesting probes per construct; the fallible calls of libzwerg-dw.h on missing, empty, truncated and DWARF-less files; every value the driver serialises is read through the public accessors and compared with the internals.",
         note="A hang is a missing reply within 20 s twice in a row under a 20000-step budget.",
         design="DESIGN.md 5-C14"),
     "C15": dict(
@@ -146,7 +158,8 @@ CHECKS = {
         text="Each generated program is re-rendered with random layout (blanks, tabs, newlines, the three comment styles between any two tokens, also inside %( %)), "
              "alternative escape spellings, split string literals, redundant parentheses, and rewritten by the documented equivalences (%s/%d/%x/%o/%b vs %( %), "
              "E? vs (E,), if vs (?(C) A, !(C) B), ?(E) vs ([E] != []), infix vs the let form), and compiled without tree::simplify; compile verdict and "
-             "results must be identical.  Raw strings are compared with their spelled-out normal literals.",
+             "results must be identical.  Raw strings are compared with their spelled-out normal literals."
+             " Also: 1600 generated split literals with raw and cooked segments and every gap, infix operands binding names, and the directives against their expansions on DWARF values.",
         note="Both sides are runs of the engine; sequence equality for layout/spelling/parentheses/simplify, multiset equality for the structural equivalences.",
         design="DESIGN.md 5-C15"),
     "C16": dict(
@@ -166,7 +179,8 @@ CHECKS = {
              ".debug_loclists (offset_pair, base_address, start_end, start_length) on location/frame_base/data_member_location; elements must be the ranges in "
              "stored order, every operation must report stored offset, opcode and operands, length = #elem, relem = elem reversed, ?OP_x iff present, address = range; "
              "every DIE's `abbrev` must match its code, tag, child flag and (name, form) list with DW_FORM_indirect preserved, `abbrev entry` must list every "
-             "abbreviation of every (possibly shared, sparsely numbered) table exactly once.",
+             "abbreviation of every (possibly shared, sparsely numbered) table exactly once."
+             " All ten location-class attributes, empty expressions, abbreviations declared out of code order and `unit abbrev` are covered.",
         note="DW_OP_skip/bra and negative implicit_pointer offsets are not generated (libdw validates / reads them unsigned).",
         design="DESIGN.md 5-C17"),
     "C18": dict(
@@ -176,7 +190,8 @@ CHECKS = {
              "ELF32/ELF64, LSB/MSB, ET_REL/EXEC/DYN) for every machine elf.h knows, the sample binaries (x86-64, ARM, MIPS, PPC64) and freshly linked objects are "
              "read by a Python struct reader; `symbol` must yield every entry once, in order, numbered from zero, with equal name/value/address/size/type/binding/"
              "visibility, type and binding rendered under the name elf.h gives that code for the file's machine; machine-specific codes of different machines must "
-             "never compare equal, common codes must.",
+             "never compare equal, common codes must."
+             " Also: sizes and values up to 2^64-1, one compiled query over files of different machines, `ar` archives of generated members, and renderings relative to elf.h range markers.",
         note="Values of symbols defined in sections of ET_REL files are relocated by libdwfl and not judged.",
         design="DESIGN.md 5-C18"),
     "C19": dict(
@@ -185,7 +200,8 @@ CHECKS = {
         text="Random invocations of the built dwgrep (flag subsets of -q -s -c -H -h, query via -e / -f / positional, queries with 0/1/many results, compile errors, "
              "run-time errors after k results, soft errors; 0-3 files of kinds valid/second valid/nonexistent/directory/non-ELF; 0-2 -a/--a arguments yielding 0-3 values) "
              "are compared with a prediction computed from the library's own answers for the same query on every argument combination: exit status, stdout byte for "
-             "byte (records in row-major order, headers, --- separators, -c counts), required/forbidden driver diagnostics on stderr.",
+             "byte (records in row-major order, headers, --- separators, -c counts), required/forbidden driver diagnostics on stderr."
+             " Printed records are predicted for every value type except ELF symbols and abbreviation values (DIEs with attributes, attributes with one / several / no values, units, location expressions, address sets, sequences, the Dwarf value) from facts obtained from the library; under -c the count lines next to a raising combination are exact; queries of several lines and hostile -a literals are included.",
         note="Records are predicted for integer/string results only; the -c line of a combination that raised is not judged.",
         design="DESIGN.md 5-C19"),
     "C20": dict(
@@ -196,7 +212,8 @@ CHECKS = {
              "?FORM_x/?OP_x alias must select exactly what the long spelling and the explicit `label == DW_..` comparison select on the sample files; lattice integers in "
              "every arithmetic domain and via %d %x %o %b must re-parse to an equal value of the same domain; all strings of length <= 2 (3 in thorough) over a hostile "
              "16-byte alphabet plus random longer ones are printed by the real CLI inside sequences (one and two levels deep) and each printed line is read back by the "
-             "library and must denote the same bytes.",
+             "library and must denote the same bytes."
+             " Also: renderings next to each other (mixed sequences through %s, the driver and the CLI) must equal renderings alone, and the aliases are applied to constants of all families carrying the same number.",
         note="Known finding F9: zero in hex/oct/bin renders as '0' (reads back as decimal) -- matched by (domain, zero) exactly.",
         design="DESIGN.md 5-C20"),
 }
